@@ -274,6 +274,10 @@ def _cases(tier, rng):
     for kind, e in F.hazard_programs():
         for o in (OPTS if tier != "quick" else [OPTS[0], OPTS[5], OPTS[7]]):
             yield {"kind": "mech:" + kind, "full": True, "e": e, "opts": list(o), "lisp": F.to_lisp(e)}
+    # every compound form in every child slot, in statement and expression position
+    for kind, e in F.position_programs():
+        for o in ([rng.choice(OPTS)] if tier == "quick" else OPTS):
+            yield {"kind": kind, "full": True, "e": e, "opts": list(o), "lisp": F.to_lisp(e)}
     if tier != "quick":
         # the importer path (`basilisp run` on a generated file): a sample, each in a child interpreter
         hp = F.hazard_programs()
